@@ -146,7 +146,7 @@ def c10(pid, tier, replay):
                    "(dial outcome x task outcome x cancel placement), fixed scripts for the real 50-attempt budget and "
                    "the 250 ms..3 s ladder, seeded random scripts; non-trivial = at least two scripted outcomes",
            "session_level": {k: c1.get(k) for k in ("model_checking_runs", "environment_histories", "trace_lines_validated",
-                                                     "violating_traces", "model_counterexamples")},
+                                                     "violating_traces", "model_counterexamples", "conformance_with_Advertiser_tla")},
            "dialer_level": {"model_checking_runs": r["mc"], "trace_lines_validated": r["nlines"],
                             "violating_traces": len(r["mine"])},
            "exhaustive": False}
